@@ -11,7 +11,7 @@
   which fate) that the property theorems talk about.
 
   Not modelled: console output (`silent=False`), the `utilization` float of `get_queue_status`, `priority`,
-  `source`, `metadata`; digesters that return something that is not a dict; BaseException.
+  `source`, `metadata`; digester results whose truth test (`__bool__` / `__len__`) raises; BaseException.
 -/
 namespace Operon.Lysosome
 
@@ -159,10 +159,15 @@ inductive WType where
   | misfolded | expired | failedOp | orphaned | toxic
   deriving Repr, DecidableEq
 
-/-- what a digester did with an item: returned a dict (its keys; `[]` is the falsy empty dict) or raised -/
+/-- what a digester did with an item: returned something `dict.update` can merge (a dict, a list / tuple / iterator
+    of pairs, a mapping object: its keys; `[]` stands for the falsy results `{}`, `None`, `0`, `""`, `[]`, `()`), raised,
+    or returned normally a TRUTHY value that `recycled.update(result)` cannot merge (a non-mapping such as an int or a
+    string, a list with a malformed pair, a generator that raises part-way): `keys` are what went into the call's
+    `recycled` dict before the merge failed -/
 inductive Out where
   | ret (keys : List Nat)
   | raise
+  | bad (keys : List Nat)
   deriving Repr, DecidableEq
 
 structure Item where
@@ -231,15 +236,29 @@ def digestOne (cfg : Cfg) (it : Item) : Out × Bool :=
       | some f => if f it then (.ret [], true) else (.raise, true)
   else (cfg.dig it, false)
 
+/-- `digest`'s loop counts the item as digested: the digester returned and its result was merged (`disposed += 1`,
+    `_total_digested += 1` come after `recycled.update(result)` inside the same `try`) -/
 def succeeds (cfg : Cfg) (it : Item) : Bool :=
   match (digestOne cfg it).1 with
   | .ret _ => true
   | .raise => false
+  | .bad _ => false
 
+/-- `_emergency_digest` counts the item as digested: the digester returned (its result is discarded there, so it does
+    not matter whether it could have been merged) -/
+def succeedsEm (cfg : Cfg) (it : Item) : Bool :=
+  match (digestOne cfg it).1 with
+  | .ret _ => true
+  | .raise => false
+  | .bad _ => true
+
+/-- the keys that reach the `recycled` dict of a `digest` call: all of them, or the ones merged before the merge of an
+    unmergeable result failed -/
 def keysOf (cfg : Cfg) (it : Item) : List Nat :=
   match (digestOne cfg it).1 with
   | .ret ks => ks
   | .raise => []
+  | .bad ks => ks
 
 def callsToxic (cfg : Cfg) (it : Item) : Bool := (digestOne cfg it).2
 
@@ -254,12 +273,13 @@ structure DigestRes where
   recycledKeys : List (Nat × Item)
 
 /-- The body of `digest` for the first `n` queued items: pop them under the lock, run the digesters, update counters
-    and the bin.  `viaAuto` says who sees the errors: the caller (`reported`) or the log (`autoLogged`). -/
+    and the bin (the keys an unmergeable result left in `recycled` before its merge failed go to the bin with the rest,
+    although the item is reported as an error).  `viaAuto` says who sees the errors: the caller (`reported`) or the log (`autoLogged`). -/
 def digestCore (cfg : Cfg) (s : State) (n : Nat) (viaAuto : Bool) : State × DigestRes :=
   let items := s.queue.take n
   let oks := items.filter (succeeds cfg)
   let errs := items.filter (fun it => !succeeds cfg it)
-  let recy := dictUpdate [] (oks.flatMap fun it => (keysOf cfg it).map fun k => (k, it))
+  let recy := dictUpdate [] (items.flatMap fun it => (keysOf cfg it).map fun k => (k, it))
   ({ queue := s.queue.drop n
      clock := s.clock
      digested := s.digested + oks.length
@@ -279,14 +299,14 @@ def digestCore (cfg : Cfg) (s : State) (n : Nat) (viaAuto : Bool) : State × Dig
      gPending := s.gPending },
    ⟨oks.length, errs.length, recy⟩)
 
-/-- `_emergency_digest`: the oldest half, results discarded, failures only logged. -/
+/-- `_emergency_digest`: the oldest half, results discarded (never merged, never tested), failures only logged. -/
 def emergency (cfg : Cfg) (s : State) : State :=
   let n := s.queue.length / 2
   if n = 0 then s
   else
     let items := s.queue.take n
-    let oks := items.filter (succeeds cfg)
-    let errs := items.filter (fun it => !succeeds cfg it)
+    let oks := items.filter (succeedsEm cfg)
+    let errs := items.filter (fun it => !succeedsEm cfg it)
     { queue := s.queue.drop n
       clock := s.clock
       digested := s.digested + oks.length
@@ -403,7 +423,8 @@ def iterItem (cfg : Cfg) (s : State) (it : Item) (rest : List (Nat × Item)) : S
       items := s.items, gDigested := s.gDigested ++ [it], gErrored := s.gErrored, gEmDropped := s.gEmDropped
       gExpired := s.gExpired, gPending := rest }
   else
-    { queue := s.queue, clock := s.clock, digested := s.digested, recycled := s.recycled, bin := s.bin, dead := s.dead
+    { queue := s.queue, clock := s.clock, digested := s.digested, recycled := s.recycled
+      bin := dictUpdate s.bin ((keysOf cfg it).map fun k => (k, it)), dead := s.dead
       toxicLog := if callsToxic cfg it then s.toxicLog ++ [it] else s.toxicLog
       reported := s.reported + 1, autoLogged := s.autoLogged, emLogged := s.emLogged, expiredRet := s.expiredRet
       items := s.items, gDigested := s.gDigested, gErrored := s.gErrored ++ [it], gEmDropped := s.gEmDropped
